@@ -1017,6 +1017,12 @@ func c11Instances(add func(*Instance), thorough bool, inv int) {
 				"ak", 1, "akeys", 4, "ac0", 100, "bk", 1, "bkeys", 4, "bc0", 21, "ck", 1, "ckeys", 4, "cc0", 226, "xb", 65520, "xm", 15)})
 		}
 	}
+	// AndAny: the filters' chunk cardinalities sum to more than 4096 (scratch bitmap chunk) but their union holds fewer values;
+	// receiver chunk kinds: full run, array (both modes: the result chunk must have the kind its cardinality prescribes)
+	for _, rc := range []int{220, 21} {
+		add(&Instance{Func: "VerifC11Aggregate", Params: with(base, "g", 4, "lst", 123, "w", 1,
+			"ak", 1, "akeys", 4, "ac0", rc, "bk", 1, "bkeys", 4, "bc0", 229, "ck", 1, "ckeys", 4, "cc0", 229, "xb", 56, "xm", 15)})
+	}
 	// goroutine-based aggregates: worker counts 0..3, keys at the top of the key space, interleaved, wide and narrow spans
 	// several keys inside one work chunk, the third member inserting a key below and a key above an accumulated one
 	for g := 5; g <= 7; g++ {
